@@ -51,12 +51,14 @@ SHAPES = {
     # the statement lives outside data/ and is named by an absolute path: it stays reachable in every intermediate state of a folder move
     'csv-old-empty-key':  {'layout': 'old', 'rules': 'csv', 'empty_key': True},
     'csv-old-altsettings': {'layout': 'old', 'rules': 'csv', 'altsettings': True},     # the budget is run with --settings settings-2024.yaml
+    'rules-old-symlink-data': {'layout': 'old', 'rules': 'rules', 'symlink_data': True},   # data/ is an absolute symlink to a folder kept elsewhere (a synced drive)
     'rules-old-absdata':  {'layout': 'old', 'rules': 'rules', 'absdata': True},
     'csv-old-absdata':    {'layout': 'old', 'rules': 'csv', 'absdata': True},
 }
 COMMANDS = ['migrate', 'init', 'update']
 QUICK = [('csv-old', 'migrate'), ('csv-old-bak', 'init'), ('csv-old-output', 'update'), ('csv-new', 'migrate'), ('csv-old-commented-key', 'migrate'),
-         ('rules-old-absdata', 'update'), ('csv-old', 'migrate', 'other-filesystem'), ('csv-old-empty-key', 'migrate'), ('csv-old-altsettings', 'migrate')]
+         ('rules-old-absdata', 'update'), ('csv-old', 'migrate', 'other-filesystem'), ('csv-old-empty-key', 'migrate'), ('csv-old-altsettings', 'migrate'),
+         ('csv-old-commented-key', 'init'), ('rules-old-symlink-data', 'update')]
 OTHER_FS = '/dev/shm'        # a file system other than the one holding the system temp directory (if this machine has one)
 
 
@@ -65,7 +67,13 @@ def build(root, shape):
     base = os.path.join(root, 'tally') if sp['layout'] == 'new' else root
     cfg = os.path.join(base, 'config')
     os.makedirs(cfg)
-    os.makedirs(os.path.join(base, 'data'))
+    if sp.get('symlink_data'):
+        ext = os.path.join(os.path.dirname(root), os.path.basename(root) + '-elsewhere', 'statements')
+        shutil.rmtree(os.path.dirname(ext), ignore_errors=True)
+        os.makedirs(ext)
+        os.symlink(ext, os.path.join(base, 'data'))
+    else:
+        os.makedirs(os.path.join(base, 'data'))
     with open(os.path.join(base, 'data', 'a.csv'), 'w') as f:
         f.write(DATA)
     s = 'year: 2025\ndata_sources:\n  - name: A\n    file: data/a.csv\n    format: "{date:%Y-%m-%d},{description},{amount}"\n'
